@@ -743,6 +743,9 @@ func c13Build(seed uint64, i int) *c13Case {
 	r := sub(seed, "C13", "case", i)
 	f := drawFeatures(r)
 	w := genWorld(r, f)
+	if r.chance(1, 3) {
+		w.Docs = exported(r, w.Docs) // a directory dumped from a cluster: stale broken copies then share uid and resourceVersion with the good object
+	}
 	c := &c13Case{name: fmt.Sprintf("c13:%d", i), docs: w.Docs, admin: w.HasAdmin, seed: r.u64() >> 1}
 	if r.chance(1, 8) {
 		// (d): make the base fatal on purpose
